@@ -4,6 +4,8 @@ import Pcore.Generated.Locksets
 import Pcore.Proofs.LazyCache
 import Pcore.Generated.CacheSites
 import Pcore.Proofs.InstantiateOnce
+import Pcore.Proofs.ConcQueue
+import Pcore.Generated.QueueSites
 /-!
 # C13 — Shared loaders, types and values are safe under concurrent use
 
@@ -386,3 +388,63 @@ example : Race { fn := "basicLoader.SetEntry", field := "loaderEntry.value", wri
     { fn := "loaderEntry.Value", field := "loaderEntry.value", write := false, held := [], init := false } := by decide
 
 end Pcore.Lockset
+
+/-! ### the declare / resolve queue (`Model/ConcQueue.lean`, table `Generated/QueueSites.lean`) -/
+namespace Pcore.ConcQueue
+
+/-- obligation over the regenerated table of the guarded package-level queues (types.resolvableTypes, resolvableMappings,
+    constructorsDecls, internal.resolvableFunctions): every site holds the queue's mutex, every site that hands the slice
+    out of its critical section re-points the guarded variable at a new array, and no site re-slices a queue that is
+    handed out anywhere.  This is what a change like `resolvableTypes = resolvableTypes[:0]` breaks. -/
+theorem C13_queue_sites_ok : queueSitesOK Pcore.Generated.queueSites = true := by decide
+
+/-- the current table configures the model with the `fresh` variant -/
+theorem C13_queue_cfg_current : (Cfg.ofTable Pcore.Generated.queueSites).variant = .fresh := by decide
+
+/-- the table the extractor emits for "no need to allocate a fresh slice every time the list is popped" -/
+def resliceSites : List QueueSite := Pcore.Generated.queueSites.map fun s =>
+  if s.fn = "PopDeclaredTypes" ∧ s.kind = .escape then { s with rebind := .reslice }
+  else if s.fn = "PopDeclaredTypes" ∧ s.kind = .fresh then { s with kind := .reslice }
+  else s
+/-- … and for a pop that does not empty the queue at all -/
+def keepSites : List QueueSite := (Pcore.Generated.queueSites.filter fun s => !(s.fn = "PopDeclaredTypes" ∧ s.kind = .fresh)).map fun s =>
+  if s.fn = "PopDeclaredTypes" ∧ s.kind = .escape then { s with rebind := .none } else s
+
+-- the discipline rejects both, and the model is configured with the matching variant
+example : queueSitesOK resliceSites = false ∧ (Cfg.ofTable resliceSites).variant = .reslice := by decide
+example : queueSitesOK keepSites = false ∧ (Cfg.ofTable keepSites).variant = .keep := by decide
+-- a copy handed out and the queue re-sliced is fine (nothing escapes), so is `= nil`; an access outside the lock is not
+example : siteOK [] { fn := "Pop", var := "types.resolvableTypes", kind := .reslice, rebind := .na, held := ["resolvableTypesLock"], init := false } = true := by decide
+example : siteOK [] { fn := "Pop", var := "types.resolvableTypes", kind := .escape, rebind := .fresh, held := ["resolvableTypesLock"], init := false } = true := by decide
+example : siteOK [] { fn := "f", var := "types.resolvableTypes", kind := .read, rebind := .na, held := [], init := false } = false := by decide
+example : siteOK [] { fn := "f", var := "types.someNewQueue", kind := .append, rebind := .na, held := ["resolvableTypesLock"], init := false } = false := by decide
+
+def resliceCfg : Cfg := { cleanCfg with variant := .reslice }
+def keepCfg : Cfg := { cleanCfg with variant := .keep }
+
+/-- one type is pending; thread 0 takes the list over and is parked before it binds the type; thread 1 declares a second
+    type; thread 0 goes on -/
+def lostConfig : Config := execute resliceCfg 1 [[.resolve], [.decl]] [0, 1, 0, 0]
+
+/-- REFUTED VARIANT (shared backing array): the declaration of thread 1 lands in slot 0 of the array thread 0 is still
+    reading — type 0 is bound but NEVER resolved by anybody (it is no longer pending), type 1 is resolved although it is
+    still pending (whoever pops next resolves it a second time).  The same schedule is run on the implementation by every
+    check (`declq (pend 1) (threads (th resolve) (th decl)) (sched 0 1 0 0)`). -/
+theorem C13_queue_reslice_loses :
+    Reachable resliceCfg (Config.init resliceCfg 1 [[.resolve], [.decl]]) lostConfig ∧ Quiescent lostConfig ∧
+    lostConfig.sh.next = 2 ∧ qItems lostConfig.sh = [1] ∧ lostConfig.sh.bound = [0] ∧ lostConfig.sh.resolved = [1] ∧
+    allItemsOK lostConfig.sh = false :=
+  ⟨reachable_execute _ _ _ _, by decide +kernel, by decide +kernel, by decide +kernel, by decide +kernel, by decide +kernel,
+    by decide +kernel⟩
+
+/-- REFUTED VARIANT (the queue is never emptied): two goroutines that resolve one after the other both resolve type 0 -/
+theorem C13_queue_keep_resolves_twice :
+    let c := execute keepCfg 1 [[.resolve], [.resolve]] []
+    Quiescent c ∧ c.sh.resolved = [0, 0] ∧ allItemsOK c.sh = false := by
+  decide +kernel
+
+-- the same two runs in the variant the code has: everything is accounted for
+example : allItemsOK (execute cleanCfg 1 [[.resolve], [.decl]] [0, 1, 0, 0]).sh = true ∧
+    allItemsOK (execute cleanCfg 1 [[.resolve], [.resolve]] []).sh = true := by decide +kernel
+
+end Pcore.ConcQueue
